@@ -1997,6 +1997,66 @@ func Harness_C13_stack() {
 	VerifCover("done")
 }
 
+// Harness_C13_logsonly: expiry on a stack that holds no live ref (only reflog entries, optionally a ref and its tombstone): entries are removed even when all of them expire and nothing is left to write.
+// bounds: sequential: 2 additions holding only a reflog entry each (update indices and times 1..2), optionally preceded by the creation and deletion of a ref; CompactAll(cfg) with Time in {0,2,3} and MinUpdateIndex in {0,2,3}; the surviving entries are counted by a fresh handle
+// covers: all-expired, some-kept
+func Harness_C13_logsonly() {
+	cfg := stackCfg(0)
+	dir := VerifTempDir()
+	st := mustOpen(dir, cfg, "open")
+	if st == nil {
+		return
+	}
+	base := uint64(0)
+	if VerifChoose(2) == 1 {
+		for _, del := range []bool{false, true} {
+			del := del
+			VerifAssert(st.Add(func(w *Writer) error {
+				ui := st.NextUpdateIndex()
+				w.SetLimits(ui, ui)
+				r := &RefRecord{RefName: "gone", UpdateIndex: ui}
+				if !del {
+					r.Value = hashWith(20, 3, 3)
+				}
+				return w.AddRef(r)
+			}) == nil, "seed-gone")
+		}
+		base = 2
+	}
+	for i := uint64(1); i <= 2; i++ {
+		i := i
+		VerifAssert(st.Add(func(w *Writer) error {
+			ui := st.NextUpdateIndex()
+			w.SetLimits(ui, ui)
+			return w.AddLog(&LogRecord{RefName: "s", UpdateIndex: ui, Time: i, New: hashWith(20, byte(i), 2), Old: hashWith(20, 0, 0), Message: "m\n"})
+		}) == nil, "add-log")
+	}
+	exp := &LogExpirationConfig{Time: uint64([]int{0, 2, 3}[VerifChoose(3)]), MinUpdateIndex: uint64([]int{0, 2, 3}[VerifChoose(3)])}
+	if exp.MinUpdateIndex != 0 {
+		exp.MinUpdateIndex += base
+	}
+	orig := *exp
+	VerifAssert(st.CompactAll(exp) == nil, "expiry-compaction")
+	want := 0
+	for i := uint64(1); i <= 2; i++ {
+		if !(orig.Time > 0 && i < orig.Time) && !(orig.MinUpdateIndex != 0 && base+i < orig.MinUpdateIndex) {
+			want++
+		}
+	}
+	fin := mustOpen(dir, cfg, "reopen")
+	if fin == nil {
+		return
+	}
+	got := snapshot(fin, "after-expiry")
+	VerifAssert(got.logs == want, "expiry-wrong-entries")
+	VerifAssert(len(got.refs) == 0, "expiry-altered-refs")
+	if want == 0 {
+		VerifCover("all-expired")
+	} else {
+		VerifCover("some-kept")
+	}
+}
+
 // Harness_C05_triples: three processes (a lock deleted by a non-owner lets a commit rename an empty or foreign lock file onto tables.list).
 // bounds: 3 processes: CompactAll, open+Add, open+Add on a stack of 2 tables; every schedule with <= 3 preemptions
 // covers: done
